@@ -16,7 +16,7 @@ from redcheck import tla_set
 
 PROP = 'C12'
 NONE = 99
-ALPHA_QUICK = ['i0', 'im1', 'full', 's1_', 's__2', 's__m1', 'sm2_', 'ell', 'a01', 'a11m1', 'aneg', 'a2d', 'mAlt', 'mAll', 'm2d']
+ALPHA_QUICK = ['i0', 'im1', 'full', 's1_', 's__2', 's__m1', 'sm2_', 'ell', 'a01', 'a11m1', 'aneg', 'a2d', 'mAlt', 'mAll', 'm2d', 'm2dAll']
 ALPHA_THOROUGH = ALPHA_QUICK + ['i1', 'im2', 's_m1', 's00', 's1_m1_m1', 'a0', 'a10', 'a2du', 'mNone', 'mFirst']
 
 CFG = """INIT Init
@@ -53,10 +53,13 @@ def generate(tier: str) -> fx.TlcResult:
     return res
 
 
-def _indices(items, np_mode=False):
+def _indices(items, np_mode=False, salt=0):
     import jax.numpy as jnp
     import numpy as np
 
+    # integer index arrays come in every integer dtype that can hold them (signed and unsigned, narrow and wide)
+    signed = [np.int32, np.int8, np.int16, np.int32]
+    unsigned = [np.uint8, np.int32, np.uint16, np.int16, np.uint32, np.int8]
     out = []
     for it in items:
         t = it['t']
@@ -68,6 +71,8 @@ def _indices(items, np_mode=False):
             out.append(Ellipsis)
         elif t == 'arr':
             a = np.array(it['v'], dtype=np.int32).reshape(it['sh'])
+            if not np_mode:
+                a = a.astype(unsigned[salt % len(unsigned)] if a.size and a.min() >= 0 else signed[salt % len(signed)])
             out.append(a if np_mode else jnp.asarray(a))
         elif t == 'mask':
             a = np.array(it['v'], dtype=bool).reshape(it['sh'])
@@ -98,7 +103,7 @@ def execute(case: dict) -> dict:
     if ref.shape != oshape or not np.array_equal(ref.ravel(), sel):
         o['spec_vs_numpy'] = {'numpy_shape': list(ref.shape), 'numpy': ref.ravel().tolist()}
         return o
-    idx = _indices(case['items'])
+    idx = _indices(case['items'], salt=int(case['id'], 16) % 12)
     leaf = jax.ShapeDtypeStruct(shape, jnp.float32)
     oleaf = jax.ShapeDtypeStruct(oshape, jnp.float32)
     trees = {
@@ -205,6 +210,14 @@ def execute(case: dict) -> dict:
                         break
                 if pk.out_structure() != outs:
                     bad.append(f'pack_out_structure[{tname}]')
+                # reduce() of the pack operator (alone and under a scalar factor) still packs
+                for rk, rop in (('pack', pk.reduce()), ('scaled', (2 * pk).reduce())):
+                    yr = rop(x)
+                    f = 1 if rk == 'pack' else 2
+                    if rop.out_structure() != outs or jax.tree.structure(yr) != jax.tree.structure(y) or any(
+                            tuple(a.shape) != tuple(b.shape) or not np.array_equal(np.asarray(a), f * np.asarray(b))
+                            for a, b in zip(jax.tree.leaves(yr), jax.tree.leaves(y))):
+                        bad.append(f'pack_reduce[{tname}/{rk}]')
                 m = len(sel)
                 ys = [jnp.arange(1, m + 1, dtype=jnp.float32).reshape(oshape) * (k + 1) for k in range(len(xs))]
                 xt = pk.T(jax.tree.unflatten(jax.tree.structure(outs), ys))
